@@ -1287,8 +1287,10 @@ fn gen_case(r: &mut Prng, prop: &str, n: u64, out: &mut Out) -> (String, String,
                     let m = g.mount_step(&run.w, prop, None);
                     if up.contains(':') || !m.starts_with("m:") { m } else { format!("X:{}:{}", up, &m[2..]) }
                 }
-                3 if !run.w.live.is_empty() && prop != "C19" => {
+                3 if !run.w.live.is_empty() && prop != "C19" && !run.w.cfg.rm => {
                     // the teardown of one mount racing with a mount that already holds the mount lock
+                    // (not with remove_pseudo_root: the umount may evict the pseudo directory of the
+                    // mount path, which this harness looks up when it books the mount half)
                     let lives: Vec<String> = run.w.live.values().map(|l| l.path.clone()).collect();
                     let up = g.r.pick(&lives).clone();
                     let m = g.mount_step(&run.w, prop, None);
